@@ -318,9 +318,10 @@ class Part(object):
         measures = np.array([(m.start.t, m.end.t) for m in self.iter_all(Measure)])
 
         # correct for anacrusis
-        divs_per_beat = self.inv_beat_map(
-            1 + self.beat_map(0)
-        )  # find the divs per beat in the first measure
+        # find the divs per (notated) beat in the first measure
+        divs_per_beat = self._time_interpolator(inv=True)(
+            1 + self._time_interpolator()(0)
+        )
         if (
             measures[0][1] - measures[0][0]
             < self.time_signature_map(0)[0] * divs_per_beat
@@ -377,9 +378,10 @@ class Part(object):
             ]
         )
         # correct for anacrusis
-        divs_per_beat = self.inv_beat_map(
-            1 + self.beat_map(0)
-        )  # find the divs per beat in the first measure
+        # find the divs per (notated) beat in the first measure
+        divs_per_beat = self._time_interpolator(inv=True)(
+            1 + self._time_interpolator()(0)
+        )
         if (
             measures[0][1] - measures[0][0]
             < self.time_signature_map(0)[0] * divs_per_beat
